@@ -242,6 +242,7 @@ def run(tier):
     tin, tout = os.path.join(d, "texts.ndjson"), os.path.join(d, "parsed.ndjson")
     C.write_ndjson(tin, [{"id": t["id"], "variant": t["variant"], "text": t["text"]} for t in texts])
     p = subprocess.run([C.TSGV, "parse", tin, tout], stdout=subprocess.PIPE, stderr=subprocess.DEVNULL, text=True, timeout=3400)
+    C.killed_from_outside(p.returncode)
     if p.returncode != 0:
         V.violation("parse-process", {"property": PROP, "detail": "the parsing process died with status %d" % p.returncode}, {"observed": "abort"})
         parsed = []
